@@ -369,7 +369,14 @@ func (t *Total) Merge(t2 *Total) *Total {
 					rateTotal.Base = rateTotal.Base.MatchPrecision(rt.Base).Add(rt.Base)
 					rateTotal.Amount = rateTotal.Amount.MatchPrecision(rt.Amount).Add(rt.Amount)
 					if rt.Surcharge != nil {
-						rateTotal.Surcharge.Amount = rateTotal.Surcharge.Amount.MatchPrecision(rt.Surcharge.Amount).Add(rt.Surcharge.Amount)
+						if rateTotal.Surcharge == nil {
+							rateTotal.Surcharge = &RateTotalSurcharge{
+								Percent: rt.Surcharge.Percent,
+								Amount:  rt.Surcharge.Amount,
+							}
+						} else {
+							rateTotal.Surcharge.Amount = rateTotal.Surcharge.Amount.MatchPrecision(rt.Surcharge.Amount).Add(rt.Surcharge.Amount)
+						}
 					}
 				}
 			}
